@@ -136,6 +136,8 @@ pub fn abi_expected_valid(abi: &[Enc]) -> bool {
     for (i, e) in abi.iter().enumerate() {
         if let Enc::Int { letter, arg0: true, .. } = e { if i > 0 || int_letter_info(*letter).0 == 4 { return false; } }
         if let Enc::Str { size: StrSize::BlobEnd(_), .. } = e { if i + 1 != abi.len() { return false; } }
+        if let Enc::Str { size: StrSize::BlobEnd(0) | StrSize::Pascal(0), .. } = e { return false; }
+        if let Enc::Str { size: StrSize::Fixed(_, true), furibug: true, .. } = e { return false; }
     }
     true
 }
@@ -539,11 +541,16 @@ fn expect_inner(abi: &[Enc], args: &[Arg], furi_len: &mut usize, quirk: &mut boo
     let params: Vec<&Enc> = abi.iter().filter(|e| !e.is_padding()).collect();
     if params.len() != args.len() { return Expect::Unspecified; }
     let mut worst = Expect::RoundTrip;
-    for (e, a) in params.iter().zip(args) {
+    let has_arg0 = matches!(params.first(), Some(Enc::Int { arg0: true, .. }));
+    for (idx, (e, a)) in params.iter().zip(args).enumerate() {
+        // the mask has 16 bits (the arg0 parameter does not take one): a register after them cannot be marked
+        let bit_index = if has_arg0 { idx.saturating_sub(1) } else { idx };
+        if a.is_reg() && bit_index >= 16 && !(has_arg0 && idx == 0) { worst = Expect::Diagnose("register-beyond-16-parameters"); }
         match (e, a) {
             (Enc::Int { letter, arg0, imm, .. }, Arg::Int(v, reg)) => {
                 if *reg && (*imm || *arg0) { return Expect::Diagnose("register-in-immediate-parameter"); }
-                if !fits(*letter, *v) || (*arg0 && !fits('s', *v)) { worst = Expect::Diagnose("int-misfit"); }
+                // an arg0 parameter is stored in the 16-bit signed header field, whatever its letter says
+                if (*arg0 && !fits('s', *v)) || (!*arg0 && !fits(*letter, *v)) { worst = Expect::Diagnose("int-misfit"); }
             },
             (Enc::O, Arg::Int(_, reg)) | (Enc::T, Arg::Int(_, reg)) => if *reg { return Expect::Diagnose("register-in-immediate-parameter"); },
             (Enc::Float { imm }, Arg::Float(_, reg)) => if *reg && *imm { return Expect::Diagnose("register-in-immediate-parameter"); },
@@ -707,7 +714,12 @@ fn gen_str_enc(rng: &mut Rng, last: bool) -> Enc {
     let bs = *rng.pick(&[1usize, 2, 3, 4, 4, 4, 5, 8, 16]);
     match kind {
         0 => { let letter = *rng.pick(&['z', 'm']); Enc::Str { letter, size: StrSize::BlobEnd(bs), mask: if letter == 'z' && rng.chance(2, 3) { [0, 0, 0] } else { gen_mask(rng) }, furibug } },
-        1 => { let letter = *rng.pick(&['z', 'm']); Enc::Str { letter, size: StrSize::Fixed(*rng.pick(&[0usize, 1, 2, 4, 8, 12, 16, 32, 48]), rng.chance(1, 3)), mask: if letter == 'z' && rng.chance(2, 3) { [0, 0, 0] } else { gen_mask(rng) }, furibug } },
+        1 => {
+            let letter = *rng.pick(&['z', 'm']);
+            let nulless = rng.chance(1, 3);
+            // `furibug` on a `nulless` string is rejected by the signature parser
+            Enc::Str { letter, size: StrSize::Fixed(*rng.pick(&[0usize, 1, 2, 4, 8, 12, 16, 32, 48]), nulless), mask: if letter == 'z' && rng.chance(2, 3) { [0, 0, 0] } else { gen_mask(rng) }, furibug: furibug && !nulless }
+        },
         _ => Enc::Str { letter: 'p', size: StrSize::Pascal(bs), mask: if rng.chance(2, 3) { [0, 0, 0] } else { gen_mask(rng) }, furibug },
     }
 }
@@ -779,12 +791,11 @@ pub fn gen_args(rng: &mut Rng, abi: &[Enc], mode: ArgMode, allow_regs: bool, fur
                 let reg_allowed = allow_regs && !*imm && !*arg0;
                 if mode == ArgMode::BadReg && hit && (*imm || *arg0) { args.push(Arg::Int(rng.range(0, 100) as i32, true)); continue; }
                 let fit = !(mode == ArgMode::IntMisfit && hit);
-                let letter_eff = if *arg0 && int_letter_info(*letter) == (2, false) { 's' } else { *letter };
+                let letter_eff = if *arg0 { 's' } else { *letter };
                 if reg_allowed && rng.chance(1, 3) {
                     args.push(Arg::Int(boundary_int(rng, letter_eff, fit), true));
                 } else {
-                    let mut v = boundary_int(rng, letter_eff, fit);
-                    if *arg0 && fit && !fits(*letter, v) { v = 1; }
+                    let v = boundary_int(rng, letter_eff, fit);
                     args.push(Arg::Int(v, false));
                 }
             },
@@ -866,7 +877,7 @@ impl Prop for C12 {
         "call/mutate/blob: (compile warnings, RawInstr.args_blob/param_mask/extra_arg of every instruction, raised argument lists, decode warnings, re-lowered instructions) of Lowerer/Raiser under a TestLanguage with the generated signatures == Lean `compileSeq`/`decompileCall` of TruthModel.Abi; sig: mapfile loader accept/reject == Lean `validAbi` (+ the arg0 language rule)"
     }
     fn rule(&self) -> &'static str {
-        "random valid signatures over S s c U u b C n N E o t _ - f z m p with imm/hex/enum/arg0/bs/len/nulless/mask/furibug, 0..16 parameters, padding anywhere; arguments at width boundaries, registers vs immediates per position, strings of 0..3 blocks around block/buffer boundaries incl. trail bytes 0x5C/0x7C and furigana lines; streams: valid, int misfit, register in immediate-only position, oversize string, zero block size, 17 parameters, mutated compiled instructions (field bytes, mask bits, truncation, extension, padding bytes), arbitrary blobs, invalid signatures, the same calls through real ANM TH12 files. non-trivial = at least one non-padding parameter"
+        "random valid signatures over S s c U u b C n N E o t _ - f z m p with imm/hex/enum/arg0/bs/len/nulless/mask/furibug, 0..16 parameters, padding anywhere; arguments at width boundaries, registers vs immediates per position, strings of 0..3 blocks around block/buffer boundaries incl. trail bytes 0x5C/0x7C and furigana lines; streams: valid, int misfit, register in immediate-only position, oversize string, zero block size, nulless+furibug, 17-20 parameters with and without late registers, mutated compiled instructions (field bytes, mask bits, truncation, extension, padding bytes), arbitrary blobs, invalid signatures, the same calls through real ANM TH12 files. non-trivial = at least one non-padding parameter"
     }
     fn theorems(&self) -> &'static [&'static str] { &["TruthModel.C12.decode_encode", "TruthModel.C12.encode_decode_partial", "TruthModel.C12.xor_involutive", "TruthModel.C12.mask_bits_positions"] }
     fn timeout_secs(&self) -> u64 { 30 }
@@ -919,19 +930,31 @@ impl Prop for C12 {
             // the model mirrors the silent truncation, so these stay comparable with it
             out.push(Case::corr(sexp).tag(tag));
         }
-        // (c) zero block size (the encoder divides by it) and 17+ parameters: search only
+        // (c) zero block size (rejected when the signature is parsed) and 17+ parameters (a register
+        //     after the 16 mask bits is an error, immediates are fine): compared with the model
         for _ in 0..20 * scale {
             let letter = *rng.pick(&['z', 'm', 'p']);
             let size = if letter == 'p' { StrSize::Pascal(0) } else { StrSize::BlobEnd(0) };
             let abi = vec![Enc::Int { letter: 'S', arg0: false, imm: false, hex: false, en: false }, Enc::Str { letter, size, mask: gen_mask(rng), furibug: rng.chance(1, 3) }];
             let args = vec![Arg::Int(rng.int_boundary(), false), Arg::Str(sjis_encode(&gen_text(rng, 6)).unwrap())];
-            out.push(Case::search(call_case("call", Lang::Anm, &[abi], &[(0, args)], &[])).tag("zero-block-size"));
+            out.push(Case::search(call_case("call", Lang::Anm, &[abi.clone()], &[(0, args)], &[])).tag("zero-block-size"));
+            out.push(Case::corr(Sexp::app("sig", vec![Sexp::atom("anm"), abi_sexp(&abi)])).tag("sig-zero-block-size"));
         }
-        for _ in 0..20 * scale {
+        for _ in 0..10 * scale {
+            let abi = vec![Enc::Str { letter: 'm', size: StrSize::Fixed(*rng.pick(&[4usize, 8, 16]), true), mask: gen_mask(rng), furibug: true }];
+            out.push(Case::corr(Sexp::app("sig", vec![Sexp::atom("anm"), abi_sexp(&abi)])).tag("sig-nulless-furibug"));
+        }
+        for i in 0..40 * scale {
             let n = 17 + rng.below(4);
-            let abi: Vec<Enc> = (0..n).map(|_| Enc::Int { letter: 'S', arg0: false, imm: false, hex: false, en: false }).collect();
-            let args: Vec<Arg> = (0..n).map(|i| Arg::Int(rng.range(0, 99) as i32, i >= 16 || rng.chance(1, 3))).collect();
-            out.push(Case::search(call_case("call17", Lang::Anm, &[abi], &[(0, args)], &[])).tag("more-than-16-parameters"));
+            let abi: Vec<Enc> = (0..n).map(|_| if rng.chance(1, 8) { Enc::Pad(rng.chance(1, 2)) } else { Enc::Int { letter: *rng.pick(&['S', 'S', 'u', 'C']), arg0: false, imm: rng.chance(1, 10), hex: false, en: false } }).collect();
+            let mut k = 0;
+            let late_regs = i % 2 == 0;
+            let args: Vec<Arg> = abi.iter().filter(|e| !e.is_padding()).map(|e| {
+                k += 1;
+                let imm = matches!(e, Enc::Int { imm: true, .. });
+                Arg::Int(rng.range(0, 99) as i32, !imm && if k > 16 { late_regs && rng.chance(1, 2) } else { rng.chance(1, 3) })
+            }).collect();
+            out.push(Case::corr(call_case("call", Lang::Anm, &[abi], &[(0, args)], &[])).tag(if late_regs { "more-than-16-parameters-late-registers" } else { "more-than-16-parameters" }));
         }
         // (d) mutated compiled instructions: the decode direction on arbitrary instruction contents
         for _ in 0..900 * scale {
@@ -1058,7 +1081,7 @@ impl Prop for C12 {
     fn eval(&self, case: &Sexp) -> Sexp {
         let a = case.args();
         match case.head() {
-            Some("call") | Some("call17") | Some("mutate") | Some("anmfile") => {
+            Some("call") | Some("mutate") | Some("anmfile") => {
                 let lang = Lang::from_name(a[0].as_atom());
                 let abis: Vec<Vec<Enc>> = a[1].as_list().iter().map(abi_from_sexp).collect();
                 let calls = calls_from_sexp(a[2].as_list());
@@ -1081,15 +1104,6 @@ impl Prop for C12 {
         if let Some(f) = default_judge(result) { return Some(f); }
         match case.head() {
             Some("call") | Some("mutate") | Some("anmfile") => judge_call(case, result),
-            Some("call17") => {
-                // a register argument must come back as a register (or be rejected)
-                if result.head() != Some("ok") { return None; }
-                let calls = calls_from_sexp(case.args()[2].as_list());
-                let want: Vec<Sexp> = calls.iter().map(|(_, args)| Sexp::list(args.iter().map(|x| x.to_sexp()).collect())).collect();
-                let dec = result.args().iter().find(|x| x.head() == Some("dec"))?;
-                if dec.args() != &want[..] { return Some(Failure { signature: "register-flag-lost-beyond-16-parameters".into(), what: format!("compiled without diagnostic; decodes to {dec}, expected {}", Sexp::list(want)) }); }
-                None
-            },
             _ => None,
         }
     }
